@@ -7,7 +7,7 @@ from ..buscheck import fld, hexname, Tracker
 MODULE = "Dbus.Props.C09"
 THEOREMS = ["reply_without_slot_refused", "reply_consumes_slot", "second_reply_finds_no_slot", "no_reply_expected_no_slot",
             "outstanding_serial_refused", "pending_never_duplicated", "callee_gone_one_noreply_each", "timeout_one_noreply_each",
-            "noReply_shape"]
+            "noReply_shape", "full_queue_opens_no_slot"]
 BUS = "org.freedesktop.DBus"
 ERR = "org.freedesktop.DBus.Error."
 # the system bus default as far as replies go: method calls and signals may be sent, replies only when requested
@@ -39,7 +39,7 @@ def oracle(tr):
         if sent and actor in tk.names and fld(sent, "t") in ("1", "2", "3", "4"):
             d = hexname(fld(sent, "dest"))
             me = tk.names[actor]
-            if d is not None and d != BUS:
+            if d is not None and d != BUS and tk.primary(d) != "?":
                 owner = tk.primary(d)
                 def is_copy(l):
                     return hexname(fld(l, "sender")) == me and fld(l, "ser") == fld(sent, "ser") and fld(l, "t") == fld(sent, "t")
@@ -49,7 +49,7 @@ def oracle(tr):
                     s = (owner, actor, int(rs))
                     if owner is not None and s in slots:
                         slots.remove(s)          # used up whether or not it got through
-                        if got != 1:
+                        if got != 1 and owner not in tk.stalled:      # (a caller that is not reading is refused the reply: queue full)
                             bad.append((None, "step %d: the requested reply %s -> %s (serial %s) was delivered %d times" % (i, me, d, rs, got)))
                     elif got:
                         bad.append((None, "step %d: a reply from %s with serial %s reached connection %s, which has no such call outstanding to it" % (i, me, rs, owner)))
@@ -71,7 +71,7 @@ def oracle(tr):
             slots = []
         for c in set(noreply) | set(expected_noreply):
             a, b = sorted(noreply.get(c, [])), sorted(expected_noreply.get(c, []))
-            if a != b and c in tk.live and c not in gone:
+            if a != b and c in tk.live and c not in gone and c not in tk.stalled and op[0] != "unstall":
                 bad.append((None, "step %d: connection %d got NoReply for serials %s, outstanding calls say %s" % (i, c, a, b)))
         tk.after(i, tr)
     return bad
@@ -86,6 +86,9 @@ def run(ctx):
                            limits={"replies": 2}, seed_salt=21, label="replies-limit-2")
     buscheck.run_histories(ctx, n // 3 if ctx.quick() else n // 6, 35, oracle, gen_kw={"weights": dict(W, sleep=2), "max_conns": 4},
                            policy=REQUESTED, limits={"reply_timeout": 300}, seed_salt=22, label="reply-timeout-300ms")
+    # callees and callers that do not read: a call refused because the callee's queue is full opens no slot
+    buscheck.run_histories(ctx, n // 2, 80, oracle, gen_kw={"weights": dict(W, stall=6, unstall=5), "max_conns": 4, "no_eavesdrop": True},
+                           policy=REQUESTED, limits={"outgoing": 20000}, seed_salt=23, label="slow-readers")
 
 
 def replay(path):
